@@ -1,9 +1,10 @@
 (* Pinned statements for C15: compiled on every check run. A statement weakened in Props/ fails here. *)
-From Coq Require Import List String.
-From TS Require Import Model.Str Model.Outcome Model.Unicode Model.Syntax Model.Attrs Model.Types Model.Parse.
+From Coq Require Import List String Permutation.
+From TS Require Import Model.Str Model.Outcome Model.Unicode Model.Syntax Model.Attrs Model.Types Model.Parse Model.Rename.
+From TS Require Import Model.TopsortAlgo Model.Topsort Model.Lang.Common.
 From TS Require Import Model.Lang.TypeScript Model.Lang.Kotlin Model.Lang.Swift Model.Lang.Scala Model.Lang.Go Model.Lang.Python.
-From TS Require Import Spec.Lexers Spec.C15Spec.
-From TS Require Proofs.C15.
+From TS Require Import Spec.Lexers Spec.C15Spec Spec.C15Render.
+From TS Require Proofs.C15 Proofs.C15_Render Proofs.C15_Kotlin Proofs.C15_Go Proofs.C15_Swift Proofs.C15_Python Proofs.C15_TypeScript.
 Import ListNotations.
 From TS Require Props.C15.
 
@@ -15,6 +16,15 @@ Goal forall uc attrs,
                      end) attrs.
 Proof. exact Props.C15.C15_front_raw_doc_strings. Qed.
 Print Assumptions Props.C15.C15_front_raw_doc_strings.
+Goal forall uc attrs,
+  parse_comment_attrs uc attrs =
+  map (c15_carried uc)
+      (flat_map (fun a => match a_meta a with
+                          | MNV p (VStr s) => if path_is_ident p (lit "doc") then [s] else []
+                          | _ => []
+                          end) attrs).
+Proof. exact Props.C15.C15_front_carried. Qed.
+Print Assumptions Props.C15.C15_front_carried.
 Goal forall indent docs,
   text_of (ts_tmpl indent docs) = ts_comments indent docs /\ docs_of (ts_tmpl indent docs) = docs.
 Proof. exact Props.C15.C15_fragment_ts. Qed.
@@ -115,3 +125,91 @@ Print Assumptions Props.C15.C15_ts_refuted.
 Goal Proofs.C15.c15_refutes C15py (lit "alpha """""" beta").
 Proof. exact Props.C15.C15_py_refuted. Qed.
 Print Assumptions Props.C15.C15_py_refuted.
+Goal forall it,
+  Permutation (c15_item_docs_helpers_first it) (c15_item_generated it ++ c15_item_docs it).
+Proof. exact Props.C15.C15_helpers_first_perm. Qed.
+Print Assumptions Props.C15.C15_helpers_first_perm.
+Goal forall (cfg : kt_config) it text,
+  kt_write_item cfg it = Ok text ->
+  exists parts,
+    text = text_of (c15_file_pieces C15kt parts) /\
+    docs_of (c15_file_pieces C15kt parts) = c15_item_docs_helpers_first it /\
+    (Forall (c15_code_neutral C15kt) parts ->
+     c15_contained C15kt LCode (mark (c15_file_pieces C15kt parts)) =
+     forallb safe_kt (c15_item_docs_helpers_first it)).
+Proof. exact Props.C15.C15_kt_render_partial. Qed.
+Print Assumptions Props.C15.C15_kt_render_partial.
+Goal forall (uc : unicode) (cfg : go_config) custom_structs it st text st',
+  go_write_item uc cfg custom_structs it st = Ok (text, st') ->
+  exists parts,
+    text = text_of (c15_file_pieces C15go parts) /\
+    docs_of (c15_file_pieces C15go parts) = c15_item_docs_helpers_first it /\
+    (Forall (c15_code_neutral C15go) parts ->
+     c15_contained C15go LCode (mark (c15_file_pieces C15go parts)) =
+     forallb safe_go (c15_item_docs_helpers_first it)).
+Proof. exact Props.C15.C15_go_render_partial. Qed.
+Print Assumptions Props.C15.C15_go_render_partial.
+Goal forall (uc : unicode) (cfg : sw_config) it st text st',
+  sw_write_item uc cfg it st = Ok (text, st') ->
+  exists parts,
+    text = text_of (c15_file_pieces C15sw parts) /\
+    docs_of (c15_file_pieces C15sw parts) = c15_sw_item_docs uc it /\
+    (Forall (c15_code_neutral C15sw) parts ->
+     c15_contained C15sw LCode (mark (c15_file_pieces C15sw parts)) =
+     forallb safe_sw (c15_sw_item_docs uc it)).
+Proof. exact Props.C15.C15_sw_render_partial. Qed.
+Print Assumptions Props.C15.C15_sw_render_partial.
+Goal forall (uc : unicode) (cfg : py_config) it st text st',
+  py_write_item uc cfg it st = Ok (text, st') ->
+  exists parts,
+    text = text_of (c15_file_pieces C15py parts) /\
+    docs_of (c15_file_pieces C15py parts) = map snd (c15_py_item_sites it) /\
+    (Forall (c15_code_neutral C15py) parts ->
+     c15_contained C15py LCode (mark (c15_file_pieces C15py parts)) =
+     forallb (c15_site_ok C15py) (c15_py_item_sites it)).
+Proof. exact Props.C15.C15_py_render_partial. Qed.
+Print Assumptions Props.C15.C15_py_render_partial.
+Goal forall it,
+  Permutation (map snd (c15_py_item_sites it)) (c15_item_generated it ++ c15_item_docs it).
+Proof. exact Props.C15.C15_py_sites_perm. Qed.
+Print Assumptions Props.C15.C15_py_sites_perm.
+Goal forall (uc : unicode) (cfg : ts_config),
+  c15_mappings_plain C15ts (ts_type_mappings cfg) = true ->
+  forall it st text st',
+  c15_item_plain C15ts TypeScript (fun n => str_to_uppercase uc (to_snake_case uc n)) it = true ->
+  ts_write_item uc cfg it st = Ok (text, st') ->
+  exists parts,
+    text = text_of (c15_file_pieces C15ts parts) /\
+    docs_of (c15_file_pieces C15ts parts) = c15_item_docs it /\
+    c15_contained C15ts LCode (mark (c15_file_pieces C15ts parts)) = forallb safe_ts (c15_item_docs it).
+Proof. exact Props.C15.C15_ts_item. Qed.
+Print Assumptions Props.C15.C15_ts_item.
+Goal forall (cfg : kt_config),
+  c15_plain C15kt (kt_prefix cfg) = true ->
+  c15_mappings_plain C15kt (kt_type_mappings cfg) = true ->
+  forall it text,
+  c15_item_strict C15kt Kotlin it = true ->
+  kt_write_item cfg it = Ok text ->
+  exists parts,
+    text = text_of (c15_file_pieces C15kt parts) /\
+    docs_of (c15_file_pieces C15kt parts) = c15_item_docs_helpers_first it /\
+    c15_contained C15kt LCode (mark (c15_file_pieces C15kt parts)) =
+    forallb safe_kt (c15_item_docs_helpers_first it).
+Proof. exact Props.C15.C15_kt_item. Qed.
+Print Assumptions Props.C15.C15_kt_item.
+Goal forall (uc : unicode) (cfg : ts_config),
+  c15_mappings_plain C15ts (ts_type_mappings cfg) = true ->
+  forall pd text,
+  c15_no_star (ts_version cfg) = true ->
+  forallb (c15_item_plain C15ts TypeScript (fun n => str_to_uppercase uc (to_snake_case uc n))) (items_of pd) = true ->
+  forallb c15_ts_item_keys_ok (items_of pd) = true ->
+  ts_generate uc cfg pd = Ok text ->
+  exists items trailer parts,
+    topsort (items_of pd) = Ok items /\ Permutation items (items_of pd) /\
+    (trailer = [] \/ trailer = c15_ts_trailer_docs) /\
+    text = text_of (c15_file_pieces C15ts parts) /\
+    docs_of (c15_file_pieces C15ts parts) = flat_map c15_item_docs items ++ trailer /\
+    c15_contained C15ts LCode (mark (c15_file_pieces C15ts parts)) =
+    forallb safe_ts (flat_map c15_item_docs (items_of pd)).
+Proof. exact Props.C15.C15_ts_file. Qed.
+Print Assumptions Props.C15.C15_ts_file.
